@@ -172,8 +172,42 @@ class ListHook:
 
 
 # -------------------------------------------------------------- Gallina
+class Interner:
+    """names of one case become let-bound identifiers: case files stay small
+    (Coq is slow at parsing long numeral lists)"""
+
+    def __init__(self) -> None:
+        self.tab: dict = {}
+
+    def name(self, s: str) -> str:
+        if s not in self.tab:
+            self.tab[s] = f's{len(self.tab)}'
+        return self.tab[s]
+
+    def wrap(self, body: str) -> str:
+        lets = ''.join(f'let {v} : name := {T.codepoints(s)} in ' for s, v in self.tab.items())
+        return f'({lets}{body})'
+
+
+_INTERN: Interner | None = None
+
+
+def interning(i: Interner | None) -> None:
+    global _INTERN
+    _INTERN = i
+
+
 def enc_name(s: str) -> str:
+    if _INTERN is not None:
+        return _INTERN.name(s)
     return T.codepoints(s)
+
+
+_ATTRS = {(3,): 'A3', (2,): 'A2', (1, 2): 'A12', (1, 3): 'A13', (1,): 'A1'}
+
+
+def enc_attrs(a) -> str:
+    return _ATTRS.get(tuple(a)) or T.nlist(a)
 
 
 def enc_op(op) -> str:
@@ -190,7 +224,7 @@ def enc_op(op) -> str:
 def enc_lines(lines) -> str:
     if not lines:
         return '(@nil (name * list N))'
-    return T.lst(T.pair(enc_name(n), T.nlist(a)) for n, a in lines)
+    return T.lst(T.pair(enc_name(n), enc_attrs(a)) for n, a in lines)
 
 
 def enc_expect(e) -> str:
